@@ -889,7 +889,10 @@ impl<'de, 'a, R: Reader<'de>> de::Deserializer<'de> for &'a mut Deserializer<R> 
                 self.parser.read.eat(1);
                 let value = {
                     let _ = DepthGuard::guard(self);
-                    tri!(visitor.visit_enum(VariantAccess::new(self)))
+                    match visitor.visit_enum(VariantAccess::new(self)) {
+                        Ok(value) => value,
+                        Err(err) => return Err(self.parser.fix_position(err)),
+                    }
                 };
 
                 match self.parser.skip_space() {
@@ -898,7 +901,11 @@ impl<'de, 'a, R: Reader<'de>> de::Deserializer<'de> for &'a mut Deserializer<R> 
                     None => Err(self.parser.error(ErrorCode::EofWhileParsing)),
                 }
             }
-            Some(b'"') => visitor.visit_enum(UnitVariantAccess::new(self)),
+            Some(b'"') => match visitor.visit_enum(UnitVariantAccess::new(self)) {
+                Ok(value) => Ok(value),
+                // errors made by the visitor have no position yet
+                Err(err) => Err(self.parser.fix_position(err)),
+            },
             Some(_) => Err(self.parser.error(ErrorCode::InvalidJsonValue)),
             None => Err(self.parser.error(ErrorCode::EofWhileParsing)),
         }
